@@ -73,9 +73,14 @@ func guarded(f func() ([]byte, error)) (out []byte, res string) {
 		}
 		return rr.b, "ok"
 	case <-time.After(20 * time.Second):
+		// the call is still running (a goroutine cannot be stopped): report it and end the suite after this case,
+		// a spinning decoder would only slow down everything that follows
+		codecsAbort = true
 		return nil, "timeout"
 	}
 }
+
+var codecsAbort bool
 
 // outputs of earlier encoder calls, kept exactly as returned (a cache keeps them for the lifetime of the entry)
 type keptStream struct {
@@ -99,7 +104,7 @@ func stdDecode(format string, data []byte) ([]byte, error) {
 
 func suiteCodecs(r *rng, n int) {
 	var kept []keptStream
-	for i := 0; i < n; i++ {
+	for i := 0; i < n && !codecsAbort; i++ {
 		cr := r.fork(uint64(i))
 		body, cls := codecBody(cr)
 		switch cr.intn(4) {
